@@ -45,20 +45,55 @@ MSG_RULES = {"<m1>": Lit("1"), "<m2>": Lit("2"), "<m3>": Lit("3"), "<m4>": Lit("
 VALUE = {"p": "1", "q": "2", "r": "3", "s": "4", "t": "3"}
 
 
-def to_letters(n):
-    """message-level abstraction of a rule body: message nonterminals become letters"""
+def _vis_default(key) -> bool:
+    return bool(LETTER[key])
+
+
+def to_letters(n, vis=_vis_default):
+    """message-level abstraction of a rule body: message nonterminals become letters; invisible messages are ERASED
+    (projection to the view of the kept parties)"""
     if isinstance(n, NT):
         if n.sender is not None:
-            letter = LETTER[(n.sender, n.recipient, n.name)]
-            return Lit(letter) if letter else Seq(())   # invisible messages are erased (projection to the fuzzer's view)
+            key = (n.sender, n.recipient, n.name)
+            return Lit(LETTER[key]) if vis(key) else Seq(())
         return n
     if isinstance(n, (Seq, Alt)):
-        return type(n)(tuple(to_letters(x) for x in n.items))
+        return type(n)(tuple(to_letters(x, vis) for x in n.items))
     if isinstance(n, (Opt, Star, Plus)):
-        return type(n)(to_letters(n.x))
+        return type(n)(to_letters(n.x, vis))
     if isinstance(n, Rep):
-        return Rep(to_letters(n.x), n.lo, n.hi)
+        return Rep(to_letters(n.x, vis), n.lo, n.hi)
     return n
+
+
+def drop_rules(rules: dict, vis) -> dict:
+    """the other reading of slicing: an element that consists of invisible messages only is REMOVED (an alternative loses
+    the branch, a repetition over it disappears, a rule that becomes empty is removed wherever it is referenced)"""
+    dead: set = set()
+    while True:
+        def d(n):
+            if isinstance(n, NT):
+                if n.sender is not None:
+                    key = (n.sender, n.recipient, n.name)
+                    return Lit(LETTER[key]) if vis(key) else None
+                return None if n.name in dead else n
+            if isinstance(n, (Seq, Alt)):
+                items = [y for y in (d(x) for x in n.items) if y is not None]
+                if not items:
+                    return None
+                return type(n)(tuple(items))
+            if isinstance(n, (Opt, Star, Plus)):
+                y = d(n.x)
+                return None if y is None else type(n)(y)
+            if isinstance(n, Rep):
+                y = d(n.x)
+                return None if y is None else Rep(y, n.lo, n.hi)
+            return n
+        out = {k: d(v) for k, v in rules.items() if k not in MSG_RULES and k not in dead}
+        newly = {k for k, v in out.items() if v is None}
+        if not newly:
+            return out
+        dead |= newly
 
 
 def used_msgs(n, acc):
@@ -261,19 +296,36 @@ def family(tier: str) -> list:
 def work(item):
     from fandango.io.navigation.packetforecaster import PacketForecaster
 
-    rules, max_hist = item
+    rules, max_hist = item[0], item[1]
+    parties = item[2] if len(item) > 2 else None
     g = RefGrammar(rules, prelude=PRELUDE)
     fan = g.fan()
-    letters_g = RefGrammar({k: to_letters(v) for k, v in rules.items() if k not in MSG_RULES})
+    vis = _vis_default if parties is None else (lambda key: bool(LETTER[key]) and key[0] in parties)
+    letters_g = RefGrammar({k: to_letters(v, vis) for k, v in rules.items() if k not in MSG_RULES})
+    refs = [letters_g]
+    if parties is not None:
+        dr = drop_rules(rules, vis)
+        if dr.get("<start>") is not None:
+            refs.append(RefGrammar(dr))
     res = {"fan": fan, "states": 0, "transitions": 0, "viol": [], "outcomes": set()}
     try:
         spec = build(fan)
+        if parties is not None:
+            from fandango.language.parse.slice_parties import slice_parties
+            slice_parties(spec.grammar, set(parties), ignore_receivers=True)
     except Exception as e:
         res["spec_error"] = f"{type(e).__name__}: {e}"[:200]
         return res
     grammar = spec.grammar
+    if parties is not None and NonTerminal("<start>") not in grammar.rules:
+        # everything was sliced away: right iff the kept party sends nothing in any interaction
+        if any(viable(letters_g, c) for c in "pqrst" if c in {LETTER[k] for k in LETTER if vis(k)}):
+            res["viol"].append({"grammar": fan[len(PRELUDE):], "history": "", "sliced_to": sorted(parties), "kind": "slicing_removed_the_start_symbol",
+                                "sig": "slicing_removed_the_start_symbol"})
+        res["outcomes"] = 0
+        return res
     forecaster = PacketForecaster(grammar)
-    alphabet = sorted({LETTER[k] for k in LETTER if k[2] in rules and LETTER[k]})
+    alphabet = sorted({LETTER[k] for k in LETTER if k[2] in rules and vis(k)})
     seen = set()
     frontier = [("", DerivationTree(NonTerminal("<start>")))]
     depth = 0
@@ -286,6 +338,8 @@ def work(item):
             seen.add(key)
             res["states"] += 1
             base = {"grammar": fan[len(PRELUDE):], "history": hist}
+            if parties is not None:
+                base["sliced_to"] = sorted(parties)
             try:
                 with time_limit(20), AdmissionCounter(200_000):
                     pred = forecaster.predict(tree)
@@ -314,6 +368,13 @@ def work(item):
             want = {c for c in alphabet if viable(letters_g, hist + c)}
             complete_want = WordMatcher(letters_g, hist).member()
             complete_got = len(pred.complete_trees) > 0
+            if len(refs) > 1 and (got != want or complete_got != complete_want):
+                # sliced spec: slicing may be read as erasing the other parties' messages or as removing elements that consist
+                # of them only; a state is judged against the reading the forecast agrees with, else against the erasing one
+                w2 = {c for c in alphabet if viable(refs[1], hist + c)}
+                c2 = WordMatcher(refs[1], hist).member()
+                if got == w2 and complete_got == c2:
+                    want, complete_want = w2, c2
             res["outcomes"].add((tuple(sorted(got)), complete_got))
             if got != want:
                 relaxed = {c for c in alphabet if relaxed_viable(letters_g.rules, hist + c)}
@@ -350,7 +411,18 @@ def work(item):
 
 def run(ctx: Ctx) -> None:
     fam = family(ctx.tier)
-    items = rotate([(r, 4 if ctx.quick else 6) for r in fam], ctx.seed)
+    items = [(r, 4 if ctx.quick else 6) for r in fam]
+    # the same grammars sliced to one party (the `parties=` path: keep what that party sends)
+    two_party = [r for r in fam if not ({"<m4>", "<m5>", "<m6>"} & set(r))]
+    extra = [{"<start>": Seq((M3, M3R)), "<m3>": MSG_RULES["<m3>"]}, {"<start>": Alt((M3, M3R)), "<m3>": MSG_RULES["<m3>"]},
+             {"<start>": Seq((M3R, M3, M3R)), "<m3>": MSG_RULES["<m3>"]}]
+    sliced_src = extra + (two_party[::5] if ctx.quick else two_party)
+    n_sliced = 0
+    for r in sliced_src:
+        for parties in (("A",), ("B",)):
+            items.append((r, 3 if ctx.quick else 5, parties))
+            n_sliced += 1
+    items = rotate(items, ctx.seed)
     ctx.log(f"{len(items)} protocol grammars")
     results = pmap_tagged(work, items, chunk=2)
     states = transitions = outcomes = spec_errors = budget_skips = 0
@@ -371,8 +443,9 @@ def run(ctx: Ctx) -> None:
             samples.append({"grammar": r["fan"][len(PRELUDE):], "states": r["states"], "transitions": r["transitions"]})
     ctx.coverage.update(
         states=states, transitions=transitions, traces_validated_against_impl=states - budget_skips, samples=samples, exhaustive=budget_skips == 0,
-        states_not_judged_forecast_budget=budget_skips, grammars=len(items), spec_errors=spec_errors, distinct_outcomes=outcomes, max_history=4 if ctx.quick else 6,
-        rule="state = (message history, history tree) reached by mounting forecast options; every state's forecast and completeness flag is compared with the reference message-level language",
+        states_not_judged_forecast_budget=budget_skips, grammars=len(items), sliced_specs=n_sliced, spec_errors=spec_errors, distinct_outcomes=outcomes, max_history=4 if ctx.quick else 6,
+        rule="state = (message history, history tree) reached by mounting forecast options; every state's forecast and completeness flag is compared with the reference message-level language; "
+             "sliced specs (slice_parties to {A} and to {B}) are judged against the projection of the language to the kept party's messages, under either reading of slicing (erase / remove)",
     )
     if budget_skips:
         ctx.cap(f"{budget_skips} states not judged: the forecast needed more than 200 000 parser admissions or 20 s (exponentially many derivations of the history)")
